@@ -1,6 +1,9 @@
 (* Props/C14.v — C14: strconv parses and formats numbers consistently with the standard library.
    Statements only; each is closed by [exact] of a lemma proved in Strconv/*Proofs.v. *)
-From Verif Require Import Common.Base Strconv.Model Strconv.FModel Strconv.IntProofs Strconv.NumProofs Strconv.DecProofs Strconv.ScanProofs.
+From Coq Require Import Reals Floats.SpecFloat.
+From Flocq Require Import Core.Core IEEE754.BinarySingleNaN.
+From Verif Require Import Common.Base Strconv.Model Strconv.FModel Strconv.IntProofs Strconv.NumProofs Strconv.DecProofs Strconv.ScanProofs Strconv.FloatProofs.
+Open Scope Z_scope.
 
 (* ParseInt, for EVERY byte string: written as sign ++ digits ++ rest (sign = "", "+" or "-";
    rest does not continue the digits; every string has such a decomposition, see
@@ -96,3 +99,33 @@ Theorem parse_decimal_prefix_number : forall b,
   decimal_consumed b = decimal_prefix_len b.
 Proof. exact decimal_consumed_number. Qed.
 Print Assumptions parse_decimal_prefix_number.
+
+(* ParseFloat's value, PARTIAL: only the exact fast path is proved.  For an input
+   sign digits [. digits] [exponent] whose digits denote n < 2^53 and whose decimal exponent
+   e = E - (number of decimals) lies in [-22, 22] (and n <= 10^15 when e > 0) the result is finite and
+   is the correctly rounded (nearest-even, binary64) value of +-n * 10^e -- relative error <= 2^-53.
+   MISSING: the property's bound 1e-14 for all other inputs (longer mantissas, larger exponents);
+   it is searched with big-rational oracles, and is false for the extreme inputs listed as findings.
+   (Depends on the axioms of the Coq Reals library through Flocq.) *)
+Theorem parse_float_exact_fastpath_partial : forall sg ip fp (dot : bool) tail,
+  sign_ok sg -> all_digits ip -> all_digits fp -> (dot = false -> fp = []) -> ip ++ fp <> [] ->
+  ends_mant dot tail ->
+  (sg = [] -> no_sign (ip ++ (if dot then 46 :: fp else []) ++ tail)) ->
+  let n := dec_value (ip ++ fp) in
+  let e := fst (pf_exponent tail 0) - len fp in
+  n < 2 ^ 53 -> -22 <= e <= 22 -> (0 < e -> n <= 10 ^ 15) ->
+  exists (v : binary_float 53 1024) k,
+    parse_float (sg ++ ip ++ (if dot then 46 :: fp else []) ++ tail) = Ok (B2SF v, k) /\
+    is_finite v = true /\ B2R v = round64 (dec_real (sign_neg sg) n e).
+Proof. exact parse_float_exact_fastpath_proof. Qed.
+Print Assumptions parse_float_exact_fastpath_partial.
+
+(* AppendFloat, PARTIAL: nothing is appended for NaN and the infinities, and a zero is written as "0"
+   after the preserved prefix.  MISSING: well-formedness of the literal, its sign and the parse-back
+   bound for the other finite numbers (tied by the bit-for-bit correspondence of the whole function and
+   searched with big-rational oracles; three defects are listed as findings). *)
+Theorem append_float_shape_partial : forall b spare f prec,
+  (f_finite f = false -> append_float b spare f prec = Ok b) /\
+  (forall s, f = S754_zero s -> append_float b spare f prec = Ok (b ++ [48])).
+Proof. exact append_float_trivial_proof. Qed.
+Print Assumptions append_float_shape_partial.
